@@ -394,7 +394,7 @@ size_t req_compactor<T, C, A>::serialize(void* dst, size_t capacity, const S& se
 template<typename T, typename C, typename A>
 template<typename S>
 req_compactor<T, C, A> req_compactor<T, C, A>::deserialize(std::istream& is, const S& serde,
-    const C& comparator, const A& allocator, bool sorted, bool hra) {
+    const C& comparator, const A& allocator, bool sorted, bool hra, uint64_t max_num_items) {
   auto state = read<decltype(state_)>(is);
   auto section_size_raw = read<decltype(section_size_raw_)>(is);
   auto lg_weight = read<decltype(lg_weight_)>(is);
@@ -402,6 +402,7 @@ req_compactor<T, C, A> req_compactor<T, C, A>::deserialize(std::istream& is, con
   read<uint16_t>(is); // padding
   auto num_items = read<uint32_t>(is);
   if (!is.good()) throw std::runtime_error("error reading from std::istream");
+  check_num_items(num_items, max_num_items);
   auto items = deserialize_items(is, serde, allocator, num_items);
   return req_compactor(hra, lg_weight, sorted, section_size_raw, num_sections, state, std::move(items), num_items,
       comparator, allocator);
@@ -414,6 +415,14 @@ req_compactor<T, C, A> req_compactor<T, C, A>::deserialize(std::istream& is, con
   auto items = deserialize_items(is, serde, allocator, num_items);
   return req_compactor(hra, 0, sorted, k, req_constants::INIT_NUM_SECTIONS, 0, std::move(items), num_items,
       comparator, allocator);
+}
+
+template<typename T, typename C, typename A>
+void req_compactor<T, C, A>::check_num_items(uint32_t num_items, uint64_t max_num_items) {
+  if (num_items > max_num_items) {
+    throw std::invalid_argument("Possible corruption: number of items in a compactor must not exceed "
+        + std::to_string(max_num_items) + ", got " + std::to_string(num_items));
+  }
 }
 
 template<typename T, typename C, typename A>
@@ -432,7 +441,7 @@ auto req_compactor<T, C, A>::deserialize_items(std::istream& is, const S& serde,
 template<typename T, typename C, typename A>
 template<typename S>
 std::pair<req_compactor<T, C, A>, size_t> req_compactor<T, C, A>::deserialize(const void* bytes, size_t size,
-    const S& serde, const C& comparator, const A& allocator, bool sorted, bool hra) {
+    const S& serde, const C& comparator, const A& allocator, bool sorted, bool hra, uint64_t max_num_items) {
   ensure_minimum_memory(size, sizeof(state_) + sizeof(section_size_raw_) + sizeof(lg_weight_) + sizeof(num_sections_) +
       sizeof(uint16_t) + // padding
       sizeof(uint32_t)); // num_items
@@ -450,6 +459,7 @@ std::pair<req_compactor<T, C, A>, size_t> req_compactor<T, C, A>::deserialize(co
   ptr += 2; // padding
   uint32_t num_items;
   ptr += copy_from_mem(ptr, num_items);
+  check_num_items(num_items, max_num_items);
   auto pair = deserialize_items(ptr, end_ptr - ptr, serde, allocator, num_items);
   ptr += pair.second;
   return std::pair<req_compactor, size_t>(
